@@ -41,11 +41,11 @@ type event struct {
 	T     int64  `json:"t"`     // ms since the current lease was obtained
 	Node  string `json:"node"`  // frame: the peer that read it
 	// for the monitors only
-	At        int64  `json:"at"`         // ms since the run started
-	Lease     int    `json:"lease"`      // number of the lease object concerned (0 = none)
-	LeaseID   string `json:"lease_id"`   // frame / ACQX: lease id carried
-	StaleCtx  bool   `json:"stale_ctx"`  // a context obtained from PrimaryCtx during an earlier tenure is still live
-	Q         bool   `json:"q"`          // answered by the quiescent default (script exhausted)
+	At        int64  `json:"at"`        // ms since the run started
+	Lease     int    `json:"lease"`     // number of the lease object concerned (0 = none)
+	LeaseID   string `json:"lease_id"`  // frame / ACQX: lease id carried
+	StaleCtx  bool   `json:"stale_ctx"` // a context obtained from PrimaryCtx during an earlier tenure is still live
+	Q         bool   `json:"q"`         // answered by the quiescent default (script exhausted)
 	Cand      bool   `json:"cand"`
 	SvcSet    string `json:"svc_set"`    // SETCID: the id passed, as a symbol
 	StreamCID string `json:"stream_cid"` // READ/SCLOSE: cluster id of the stream being read
@@ -96,12 +96,15 @@ type run struct {
 	lastEvent time.Time
 	mism      []string
 
-	leases   []*sLease
-	cur      *sLease
-	genID    string
-	captured []capturedCtx
-	streamN  int
-	frameIDs map[string]bool // lease ids put into scripted handoff frames
+	leases    []*sLease
+	cur       *sLease
+	lastRenew string // last scripted answer to Renew
+	lastCID   string // last scripted answer to ClusterID (not an error)
+	driveLeft int    // calls still answered permissively after the store left the script
+	genID     string
+	captured  []capturedCtx
+	streamN   int
+	frameIDs  map[string]bool // lease ids put into scripted handoff frames
 
 	srv   *lhttp.Server
 	url   string
@@ -241,15 +244,46 @@ func (r *run) next(ctx context.Context, c string, fill func(e *event)) (ans stri
 	if ent == nil && r.exhausted.IsZero() {
 		r.exhausted = time.Now()
 	}
+	drive, driving := "", false
+	if ent == nil && r.diverged && r.driveLeft > 0 && c != "RENEW" {
+		driving = true
+		// the store has left the script (only a changed tree does): keep the lease service
+		// permissive for a few more calls so that what the store is heading for becomes visible
+		r.driveLeft--
+		switch c {
+		case "CID":
+			drive = r.lastCID
+		case "INFO":
+			drive = "none"
+		case "ACQ", "ACQX", "SETCID":
+			drive = "ok"
+		case "STREAM":
+			drive = "err"
+		}
+	}
+	if ent != nil && c == "CID" && ent.A != "err" {
+		r.lastCID = ent.A
+	}
 	r.mu.Unlock()
+	if driving {
+		e.A, e.Q = drive, true
+		r.append(e)
+		return drive, false
+	}
 
 	if ent == nil {
-		// quiescent default: renewals report the lease gone (drives a tenure to its end), every
-		// other call is parked until the store shuts down
+		// quiescent default: renewals report the lease gone (drives a tenure to its end) or keep
+		// failing, every other call is parked until the store shuts down
 		if c == "RENEW" {
+			// a run of failing renewals goes on failing; otherwise the lease is reported gone
 			e.A, e.Q = "expired", true
+			r.mu.Lock()
+			if r.lastRenew == "err" {
+				e.A = "err"
+			}
+			r.mu.Unlock()
 			r.append(e)
-			return "expired", false
+			return e.A, false
 		}
 		e.Ev, e.Q = "quiesce", true
 		r.append(e)
@@ -260,6 +294,11 @@ func (r *run) next(ctx context.Context, c string, fill func(e *event)) (ans stri
 		return "", true
 	}
 	e.A, e.S = ent.A, ent.S
+	if c == "RENEW" {
+		r.mu.Lock()
+		r.lastRenew = ent.A
+		r.mu.Unlock()
+	}
 	if ent.S != "none" {
 		e.Sr = r.stimulus(ent.S)
 		if e.Sr != ent.Sr {
@@ -319,6 +358,17 @@ func (r *run) ensurePeer(name string) {
 	r.mu.Lock()
 	p := r.peers[name]
 	r.mu.Unlock()
+	if p != nil && p.connected && p.sub == nil {
+		select {
+		case <-p.done: // its stream has ended (the tenure it was connected in is over)
+			p.connected = false
+		default:
+			if r.store.SubscriberByNodeID(p.id) == nil {
+				p.cancel()
+				p.connected = false
+			}
+		}
+	}
 	if p != nil && p.connected {
 		return
 	}
@@ -735,7 +785,7 @@ func (e *sEnv) SetPrimaryStatus(ctx context.Context, isPrimary bool) {
 
 func runScript(sc *script, id int) *outcome {
 	r := &run{sc: sc, cfg: sc.Cfg, id: id, ttl: time.Duration(sc.Cfg.TTL) * time.Millisecond, doneCh: make(chan struct{}),
-		peers: map[string]*peer{}, frameIDs: map[string]bool{}}
+		peers: map[string]*peer{}, frameIDs: map[string]bool{}, driveLeft: 8}
 	o := &outcome{sc: sc}
 	dir := core.Scratch("c08")
 	defer os.RemoveAll(dir)
@@ -790,7 +840,8 @@ func runScript(sc *script, id int) *outcome {
 	}
 	idle := half + 4*time.Second
 	post := r.ttl + 4*time.Second
-	if sc.Cfg.Mute {
+	if sc.Cfg.Mute || sc.hasHandoff() {
+		// processHandoff may wait 5 s for a target that does not take the lease id
 		idle += 6 * time.Second
 		post += 6 * time.Second
 	}
